@@ -115,10 +115,10 @@ def enterState (c : Chart) (transSet : List Nat) (e : EState) (s : Nat) : EState
   if mem s e.config then e
   else if S.typ.isPseudo then e
   else
-    let x := e.x.emit s!"be:{S.id}"
+    let x := e.x.emit (.be (S.id))
     let config := ins s e.config
     let x := execBlocks c config S.onentry x
-    let x := x.emit s!"ae:{S.id}"
+    let x := x.emit (.ae (S.id))
     -- history and initial transitions whose source is a child of this state, in post-fix order
     let x := transSet.foldl (fun x ti =>
       let t := tr c ti
@@ -147,16 +147,16 @@ def microstep (c : Chart) (e : EState) (targetSet exitS transSet : List Nat) (or
   let (entry, transSet) := descLoop c e exitS (2 * n + 2) entry.head? entry transSet
   let e := exitS.reverse.foldl (fun e s =>
     let S := st c s
-    let x := e.x.emit s!"bx:{S.id}"
+    let x := e.x.emit (.bx (S.id))
     let x := execBlocks c e.config S.onexit x
-    let x := x.emit s!"ax:{S.id}"
+    let x := x.emit (.ax (S.id))
     { e with config := e.config.filter (· != s), x := x }) e
   let e := ((order.mergeSort (fun a b => a.1 ≤ b.1)).map (·.2)).foldl (fun e ti =>
     if (tr c ti).isHistory || (tr c ti).isInitial then e
     else { e with x := takeTrans c e.config ti e.x }) e
   let e := entry.foldl (enterState c transSet) e
-  let e := { e with x := e.x.emit "am" }
-  let e := if e.microConfigs.contains e.config then { e with x := e.x.emit "issue" } else e
+  let e := { e with x := e.x.emit .am }
+  let e := if e.microConfigs.contains e.config then { e with x := e.x.emit .issue } else e
   { e with microConfigs := e.config :: e.microConfigs }
 
 def selectAndStep (c : Chart) (e : EState) (ev : Option String) : EState × Ret :=
@@ -166,7 +166,7 @@ def selectAndStep (c : Chart) (e : EState) (ev : Option String) : EState × Ret 
   if !sel.found then ({ e with spontaneous := false }, .microstepped)
   else
     let e := { e with spontaneous := true }
-    let e := { e with x := e.x.emit "bm" }
+    let e := { e with x := e.x.emit .bm }
     let exitS := sel.exitSet.filter (fun s => mem s e.config)
     -- REMEMBER_HISTORY
     let hist := (List.range c.states.size).foldl (fun h s =>
@@ -181,25 +181,25 @@ def selectAndStep (c : Chart) (e : EState) (ev : Option String) : EState × Ret 
 def step (c : Chart) (e : EState) : EState × Ret :=
   if e.finished then (e, .finished)
   else if e.topLevelFinal then
-    let x := e.x.emit "bcomp"
+    let x := e.x.emit .bcomp
     let x := e.config.reverse.foldl (fun x s => execBlocks c e.config (st c s).onexit x) x
-    let x := x.emit "acomp"
+    let x := x.emit .acomp
     ({ e with x := x, finished := true }, .finished)
   else if e.pristine then
     let e := { e with pristine := false, spontaneous := true }
-    let e := { e with x := e.x.emit "bm" }
+    let e := { e with x := e.x.emit .bm }
     (microstep c e (st c 0).completion [] [] [], .microstepped)
   else if e.spontaneous then selectAndStep c e none
   else
     match e.x.iq with
     | ev :: rest =>
       let e := { e with x := { e.x with iq := rest } }
-      let e := { e with x := e.x.emit s!"bpe:{ev}" }
+      let e := { e with x := e.x.emit (.bpe ev) }
       selectAndStep c e (some ev)
     | [] =>
       let e := { e with invocations := e.config }
       if !e.stable then
-        ({ e with x := e.x.emit "st", microConfigs := [], stable := true }, .macrostepped)
+        ({ e with x := e.x.emit .st, microConfigs := [], stable := true }, .macrostepped)
       else
         match e.x.eq with
         | ev :: rest =>
@@ -207,7 +207,7 @@ def step (c : Chart) (e : EState) : EState × Ret :=
           if ev == "" then
             if e.cancelled then ({ e with topLevelFinal := true }, .cancelled) else (e, .idle)
           else
-            let e := { e with x := e.x.emit s!"bpe:{ev}" }
+            let e := { e with x := e.x.emit (.bpe ev) }
             selectAndStep c e (some ev)
         | [] =>
           if e.cancelled then ({ e with topLevelFinal := true }, .cancelled) else (e, .idle)
